@@ -56,7 +56,7 @@ def plan(tier, seed):
             jobs.append({"k": "md-nested", "suffix": suffix, "i": i, "seed": seed, "flavour": "rel"})
     # far positions: blocks beyond line 65535 and tags beyond column 65535 (prose in front of the tag on its line)
     for suffix in (langs.ALL_SUFFIXES if tier == "thorough" else ["py", "rs", "js", "md", "html", "go", "sql", "java"]):
-        if suffix != "swift":
+        if suffix != "swift" and langs.SUFFIX_LANG[suffix] != "gomod":      # (66,000 repeated `module` directives are not a go.mod file)
             jobs.append({"k": "far", "suffix": suffix, "seed": seed, "flavour": "rel"})
     # deep: the blocks sit inside 30 / 70 / 150 nested constructs (if-statements, elements, mappings)
     for suffix in langs.ALL_SUFFIXES:
@@ -91,7 +91,7 @@ def _strip_blank(b):
     return b.lstrip(b"\r\n")
 
 
-def check_file(ctx, suffix, g, flavour, desc, name=None):
+def check_file(ctx, suffix, g, flavour, desc, name=None, cpu=10):
     """Run list + validation on one generated file and compare with construction truth."""
     name = name or langs.file_name_for(suffix)
     root = run.make_repo({name: g.data})
@@ -100,8 +100,8 @@ def check_file(ctx, suffix, g, flavour, desc, name=None):
     if flavour == "asan":
         env["ASAN_OPTIONS"] = "detect_leaks=0:abort_on_error=0"
     try:
-        r1 = run.run(binp, ["list"], root, stdin=None, env=env)
-        r2 = run.run(binp, [], root, stdin=None, env=env)
+        r1 = run.run(binp, ["list"], root, stdin=None, env=env, cpu_limit=cpu)
+        r2 = run.run(binp, [], root, stdin=None, env=env, cpu_limit=cpu)
     finally:
         run.rm(root)
     key = h([suffix, g.data.decode("utf-8", "replace")])
@@ -229,7 +229,8 @@ def run_job(job, ctx):
             o = gen.Opts(eol="\n", attrs_fn=_attrs_fn(script), max_depth=2, max_blocks=4, filler_lines=fl, long_prose=lp, decoys=False)
             g = gen.gen_file(r, lang, o)
             g.meta["layouts"] = list(g.meta["layouts"]) + ["far-lines" if fl > 65535 else "far-columns" if lp > 65535 else "far-control"]
-            out.append(check_file(ctx, suffix, g, flavour, dict(job, j=j)))
+            # a megabyte of source may legitimately cost seconds of parsing (C04 owns the "terminates promptly" question)
+            out.append(check_file(ctx, suffix, g, flavour, dict(job, j=j), cpu=120))
     elif job["k"] == "interp":
         for j in range(6):
             r = rng("c03i", job["seed"], suffix, job["i"], j)
